@@ -151,7 +151,17 @@ void World::createForest(int idx)
         case FK_IDX: rt = range_type::INTEGER; el = edge_labeling::INDEX_SET; break;
         default:     rt = range_type::REAL;    el = edge_labeling::EVTIMES; break;
     }
-    F.f = forest::create(D.d, s.rel != 0, rt, el, p);
+    try {
+        F.f = forest::create(D.d, s.rel != 0, rt, el, p);
+    }
+    catch (MEDDLY::error &e) {
+        // combination of kind / reduction rule not offered
+        F.f = nullptr;
+        F.alive = false;
+        stats.fired["forest_kind_not_offered"]++;
+        return;
+    }
+    if (!F.f) { F.alive = false; return; }
     F.alive = true;
     F.errored = false;
     F.fid = F.f->FID();
@@ -297,6 +307,7 @@ bool World::checkEdge(EdgeSlot &s, const std::string &monitor,
         libTable(F, *s.e, got);
     }
     catch (MEDDLY::error &e) {
+        if (getenv("SIM_DEBUG")) { FILE_output o(stderr); s.e->showGraph(o); }
         failNow(monitor, family, std::string(what) + ": evaluate threw " + e.getName());
         return false;
     }
